@@ -17,6 +17,7 @@ PassTime == {"time"}
 PassVolume == {"volume"}
 PassInode == {"inode"}
 PassAll == {"time", "volume", "inode"}
+PassVolInode == {"volume", "inode"}
 Limit0 == {0}
 Limits03 == {0, 1, 2, 3}
 Limits05 == {0, 1, 2, 3, 4, 5}
